@@ -34,6 +34,10 @@ fn bodies(max_variants: usize) -> Vec<(String, Sx)> {
     v.push(("struct B {}".to_string(), tagged("struct", vec![atom("named")])));
     v.push(("enum B { V0(), V1 {} }".to_string(), tagged("enum", vec![atom("tuple"), atom("named")])));
     v.push(("enum B { V0, V1(), V2(u8) }".to_string(), tagged("enum", vec![atom("unit"), atom("tuple"), atom("newtype")])));
+    // explicit discriminants do not change a variant's shape
+    v.push(("enum B { V0 = 1, V1(u8) = 2, V2 { x: i8 } = 3, V3(u8, u8) = 4 }".to_string(), tagged("enum", vec![atom("unit"), atom("newtype"), atom("named"), atom("tuple")])));
+    v.push(("enum B { V0(u8) = 1 }".to_string(), tagged("enum", vec![atom("newtype")])));
+    v.push(("enum B { V0 { x: i8 } = 2, V1 = 5 }".to_string(), tagged("enum", vec![atom("named"), atom("unit")])));
     let mut combos: Vec<Vec<&str>> = vec![vec![]];
     let mut frontier: Vec<Vec<&str>> = vec![vec![]];
     for _ in 0..max_variants {
